@@ -297,7 +297,7 @@ PURITY = {
     # vectors per program; gc_every: full retention check (gc.collect + weakrefs) every n-th twin
     "tiny": dict(programs=36, max_runs=4, gc_every=8, deadline=20.0),
     "quick": dict(programs=70, max_runs=6, gc_every=8, deadline=36.0),
-    "thorough": dict(programs=1300, max_runs=12, gc_every=1, deadline=430.0),
+    "thorough": dict(programs=1000, max_runs=12, gc_every=1, deadline=430.0),
 }
 
 
